@@ -3,7 +3,7 @@
 From Coq Require Import NArith ZArith List Bool Lia.
 Import ListNotations.
 From Mds Require Import Mdiff.ReaderModel Mdiff.FormatSpec Mdiff.FormatProofs.
-From Mds Require Import Gen.MdiffSpan Gen.MdiffReadSpan Gen.MdiffReadSkel.
+From Mds Require Import Gen.MdiffSpan Gen.MdiffReadSpan.
 Local Open Scope Z_scope.
 
 (* every change command has lines to show *)
@@ -116,7 +116,7 @@ Proof.
       rewrite read_normal_range_r_itoa by (unfold fits in *; lia).
       rewrite read_edit_lt. rewrite read_edit_stop by exact Htail. cbn [app].
       unfold read_normal_del_rlo, read_normal_want_add, read_normal_want_del, read_normal_chunk_lstart, read_normal_chunk_lend, read_normal_chunk_rstart, read_normal_chunk_rend.
-      unfold rn_add_mismatch, rn_del_mismatch. change (gen_op rn_op2) with Drop. cbn [andb negb orb].
+      cbn [andb negb].
       replace (rpos - 1 + 1) with rpos by lia. unwrap.
       replace (llen (X e) =? lpos + llen (X e) - lpos) with true by (symmetry; apply Z.eqb_eq; lia).
       cbn [negb andb]. rewrite andb_false_r. cbn [andb].
@@ -147,7 +147,6 @@ Proof.
       rewrite (read_edit_gt (Y e) tail [] [] false) by (left; reflexivity).
       rewrite read_edit_stop by exact Htail. cbn [app].
       unfold read_normal_add_llo, read_normal_want_add, read_normal_want_del, read_normal_chunk_lstart, read_normal_chunk_lend, read_normal_chunk_rstart, read_normal_chunk_rend.
-      unfold rn_add_mismatch, rn_del_mismatch. change (gen_op rn_op0) with Copy. cbn [andb negb orb].
       replace (lpos - 1 + 1) with lpos by lia. unwrap.
       replace (llen (Y e) =? rpos + llen (Y e) - rpos) with true by (symmetry; apply Z.eqb_eq; lia).
       cbn [negb andb]. rewrite andb_false_r. cbn [andb].
@@ -177,7 +176,6 @@ Proof.
       rewrite (read_edit_gt (Y e) tail ([] ++ X e) [] true) by (right; reflexivity).
       rewrite read_edit_stop by exact Htail. cbn [app].
       unfold read_normal_want_add, read_normal_want_del, read_normal_chunk_lstart, read_normal_chunk_lend, read_normal_chunk_rstart, read_normal_chunk_rend.
-      unfold rn_add_mismatch, rn_del_mismatch. change (gen_op rn_op1) with Replace. cbn [andb negb orb].
       unwrap.
       replace (llen (Y e) =? rpos + llen (Y e) - rpos) with true by (symmetry; apply Z.eqb_eq; lia).
       replace (llen (X e) =? lpos + llen (X e) - lpos) with true by (symmetry; apply Z.eqb_eq; lia).
